@@ -137,8 +137,9 @@ class CacheInner(taps.Monitor):
 def setup(ctx):
     B = taps.mod("menpo.transform.base")
     P = taps.mod("menpo.transform.piecewiseaffine.base")
-    taps.tap(ctx, B.Transform, "_apply_batched", BatchedMonitor())
-    taps.tap(ctx, P.AbstractPWA, "_apply_batched", BatchedMonitor())
+    # every class that defines its own batched funnel (discovered at run time: an override added later is monitored too)
+    owners = taps.tap_definers(ctx, "_apply_batched", lambda c: BatchedMonitor(), base=B.Transform)
+    ctx.see("tapped_apply_batched_definers", sorted(c.__name__ for c in owners))
     taps.tap(ctx, P.CachedPWA, "index_alpha_beta", CacheOuter())
     taps.tap(ctx, P.PythonPWA, "index_alpha_beta", CacheInner())
 
@@ -172,8 +173,10 @@ def reparameterise(rng, who, kind, d, old_recipe):
                 tl = np.asarray(who.source.trilist)
                 if not (np.sign(gen.tri_area2(who.source.points, tl)) == np.sign(gen.tri_area2(p, tl))).all():
                     return None
-            if rng.random() < 0.4:
+            if rng.random() < 0.4 and id(who) not in SHARED_ENDS:
                 # the caller refreshes the target object the alignment holds, in place, and hands the same object over again
+                # (not once an inverse is alive: an inverse holds its origin's source and target objects as its own target and
+                # source, so such an edit would be an edit of the other transform's source)
                 tobj = who.target
                 if tobj.points.dtype.kind == "f":
                     tobj.points[...] = p
@@ -205,10 +208,14 @@ def reparameterise(rng, who, kind, d, old_recipe):
         return recipe2
 
 
+SHARED_ENDS = set()
+
+
 def w_history(ctx, rng, i):
     import menpo.shape as ms
     from menpo.transform.piecewiseaffine.base import TriangleContainmentError, AbstractPWA
     TWINS.clear()
+    SHARED_ENDS.clear()
     d = 2 + (i % 5 == 4)
     K = tx.kinds(d) + ["R2LogR2RBF", "R2LogRRBF", "WeaklyProjectiveHomogeneous", "ScaledHomogeneous"]
     if d == 2 and i % 2 == 0:
@@ -262,10 +269,19 @@ def w_history(ctx, rng, i):
             # asking for the inverse is a query: afterwards the transform maps the same values to the same results
             try:
                 with taps.quiet():
-                    who.pseudoinverse()
+                    inv_ = who.pseudoinverse()
             except Exception:
                 continue
             x = prev.copy()
+            if rng.random() < 0.5 and id(who) in TWINS:
+                # ... and the inverse is a transform in its own right: asked about the very values its origin has just been
+                # applied to, it answers like an inverse taken from a transform that was never applied to anything
+                rec_who = TWINS[id(who)][1]
+                TWINS[id(inv_)] = (inv_, (lambda rec_who=rec_who: rec_who().pseudoinverse())) + tuple(TWINS[id(who)][2:])
+                live.append(inv_)
+                SHARED_ENDS.update((id(who), id(inv_)))
+                who = inv_
+                events.add("inverse_applied_to_its_origins_input")
         elif ev == "previous_result_edited":
             # the caller scribbles over the array it got back earlier (it is the caller's array) and asks again
             if last_result is None:
@@ -309,6 +325,10 @@ def w_history(ctx, rng, i):
             x = x.astype([np.int64, np.float32, np.int32][rng.integers(0, 3)])
         else:  # shape
             x = domain_points(rng, who, d, n, outside)
+        if kind == "WithDims" and rng.random() < 0.4:
+            # the same selector asked about points of another dimensionality (it selects columns, whatever their number)
+            x = rng.uniform(-5, 5, (len(x), [2, 3, 4, 5][rng.integers(0, 4)]))
+            ev = "other_width"
         bs = None
         if rng.random() < 0.6:
             bs = int(rng.integers(1, len(x) + 3))
@@ -330,7 +350,7 @@ def w_history(ctx, rng, i):
                         ctx.fail("application_changed_the_shape_it_was_given", cls=type(who).__name__)
             else:
                 last_result = who.apply(x, batch_size=bs)
-            if x.dtype == float:
+            if x.dtype == float and ev != "other_width":
                 prev = x
         except TriangleContainmentError:
             if np.isfinite(x).all():
@@ -338,7 +358,7 @@ def w_history(ctx, rng, i):
             events.add("failed")
             if x.dtype == float and np.isfinite(x).all():
                 prev = x
-        except (ValueError, TypeError):
+        except (ValueError, TypeError, IndexError):
             events.add("refused")
     # exhaustive batch sizes on one input for this instance
     x = domain_points(rng, t, d, int(rng.integers(2, 13)), 0.0)
